@@ -2,9 +2,12 @@
 //! verif-harness: runs the real aiken/uplc code next to the Lean models.
 //!   verif-harness <sub-command> [--seed N] [--tier quick|thorough] [--out file] [--replay file]
 mod aik;
+mod c01;
+mod c02;
 mod c03;
 mod c04;
 mod c05;
+mod c06;
 mod c07;
 mod c08;
 mod c09;
@@ -13,6 +16,7 @@ mod c11;
 mod c12;
 mod c13;
 mod c13gen;
+mod c14;
 mod c15;
 mod c16;
 mod c17;
@@ -22,9 +26,11 @@ mod c20;
 mod c20_json;
 mod c20_text;
 mod cek;
+mod comp;
 mod driver;
 mod flatgen;
 mod gen;
+mod mini;
 mod prng;
 mod projgen;
 mod report;
@@ -120,6 +126,12 @@ fn main() {
         "c09-det" => c09::run(&ctx),
         "c09-sites" => c09::sites(&ctx),
         "c17-iso" => c17::run(&ctx),
+        "c01-source" => c01::run(&ctx),
+        "c02-optimiser" => c02::run(&ctx),
+        "c06-classify" => c06::run(&ctx),
+        "c14-tracing" => c14::run(&ctx),
+        "c02-show" => c02::show(&ctx),
+        "c02-one" => c02::one(&ctx),
         other => {
             eprintln!("unknown sub-command {other}");
             std::process::exit(2);
